@@ -306,6 +306,7 @@ func check(c Case, o *pbt.Obs) *pbt.Failure {
 			defer wg.Done()
 			// the caller's private model: id -> version (0 = absent)
 			model := map[int]int{}
+			tainted := map[int]bool{} // ids of this caller with a write that was abandoned without an outcome
 			ver := ci * 1000
 			longWaitUsed := false
 			for oi, op := range ops {
@@ -455,6 +456,29 @@ func check(c Case, o *pbt.Obs) *pbt.Failure {
 							break
 						}
 						prev = cur
+					}
+					if err != nil && (strings.Contains(err.Error(), "deadline") || strings.Contains(err.Error(), "canceled")) {
+						// no outcome came back: the entry may still be on its way somewhere the harness cannot see (a
+						// proposal a follower has not forwarded yet). What this caller does with these ids from now on is
+						// not judged; the other ids and callers are.
+						for _, it := range op.Items {
+							tainted[it.Id] = true
+						}
+					}
+					continue
+				}
+				if func() bool {
+					for _, it := range op.Items {
+						if tainted[it.Id] {
+							return true
+						}
+					}
+					return false
+				}() {
+					lab("op-on-an-id-with-an-abandoned-write-possibly-in-flight(not judged)")
+					// (what this op did to its other ids is not followed either)
+					for _, it := range op.Items {
+						tainted[it.Id] = true
 					}
 					continue
 				}
@@ -646,6 +670,73 @@ func check(c Case, o *pbt.Obs) *pbt.Failure {
 		}(ci, ops)
 	}
 	wg.Wait()
+	// last of all: a write is in flight on a partition that cannot commit (no quorum) when the catalogue takes the
+	// proposing node out of that partition's replica set (its raft group is unloaded): the write was never applied,
+	// so it must not be acknowledged
+	if fail == nil {
+		for p := range c.Placement {
+			if !reachable[p] || quorum[p] {
+				continue
+			}
+			host := -1
+			for _, n := range c.Placement[p] {
+				if !w.down[n] {
+					host = n
+				}
+			}
+			ds := w.cl.Dataset(host, slot)
+			if host < 0 || ds == nil {
+				continue
+			}
+			var id uuid.UUID
+			found := false
+			for k := 0; k < 64 && !found; k++ {
+				if id = gen.ID(5000 + 2*k); ds.VerifPartitionOf(id) == p {
+					found = true
+				}
+			}
+			if !found {
+				continue
+			}
+			res := make(chan error, 1)
+			go func() {
+				ctx, cancel := context.WithTimeout(context.Background(), 300*time.Millisecond)
+				defer cancel()
+				res <- ds.Insert(ctx, id, amath.Vector([]float32{77, 77}), nil)
+			}()
+			time.Sleep(5 * time.Millisecond)
+			m := catalog.Model{}
+			for _, op := range w.cl.Catalog {
+				catalog.ApplyModel(m, op)
+			}
+			unloaded := make(chan struct{})
+			go func() {
+				_ = w.cl.Nodes[host].R.G.Process(catalog.Marshal(catalog.Op{K: catalog.OpRemoveNode, Slot: slot, Part: p, Node: prod.NodeID(host)}, 777777, m))
+				close(unloaded)
+			}()
+			var err error
+			select {
+			case err = <-res:
+			case <-time.After(15 * time.Second):
+				o.Inconclusive("write-during-unload-did-not-return")
+				err = context.DeadlineExceeded
+			}
+			select {
+			case <-unloaded:
+			case <-time.After(15 * time.Second):
+				o.Inconclusive("unload-did-not-return")
+			}
+			labels["write-in-flight-while-its-partition-is-unloaded"] = true
+			if err == nil {
+				if f, _, _ := w.lookupAll(id); !f {
+					// (reported only if the case fails again when executed again: seen once in about 80 000 cases on the
+					// unchanged tree under full load and never in 300 replays of that case - not understood, so not trusted)
+					fail = pbt.Failf("C11:success-without-effect", "an insert proposed on node %d for partition %d (no quorum: it cannot commit) returned success when the catalogue took the node out of the partition's replica set; no replica stores the item", host, p).Timed()
+				}
+			}
+			break
+		}
+	}
 	close(stopTicks)
 	tickWg.Wait()
 	if f := sim.TakeUnexpectedFatal(); f != "" && fail == nil {
